@@ -58,6 +58,21 @@ func (e StdEng) RepeatReuse(t Tensor, reuse Tensor, axis int, repeats ...int) (T
 		if !reuse.Shape().Eq(newShape) {
 			return nil, errors.Errorf("Reuse shape is %v. Expected shape is %v", reuse.Shape(), newShape)
 		}
+		if rr.Dtype() != tt.Dtype() {
+			return nil, errors.Errorf(typeMismatch, tt.Dtype(), rr.Dtype())
+		}
+		if !rowMajorBlock(rr) {
+			// the kernel lays the repeated blocks out in row-major storage order: a column-major destination or a view is
+			// filled through a scratch tensor, element by element
+			scratch := recycledDense(tt.Dtype(), newShape.Clone(), WithEngine(e))
+			if _, err = e.denseRepeat(tt, scratch, newShape, newAxis, size, newRepeats); err != nil {
+				return nil, err
+			}
+			if _, err = copyDenseIter(rr, scratch, nil, nil); err != nil {
+				return nil, err
+			}
+			return rr, nil
+		}
 		return e.denseRepeat(tt, rr, newShape, newAxis, size, newRepeats)
 	default:
 		return nil, errors.Errorf("NYI")
